@@ -471,10 +471,17 @@ class Program:
                     cd = tr.callee_decl(node)
                     q = (cd.get('referencedDecl', {}) or {}).get('type', {}).get('qualType') or cd.get('type', {}).get('qualType')
                     if q and '(' in q:
-                        ent = self.find(parent, name, sig=q[q.index('('):], nparams=nargs)
+                        ent = self.find(parent, name, sig=q[q.index('('):], nparams=nargs, const=q.rstrip().endswith('const'))
                         self.rule('callee defined in another translation unit: overload picked by its declared parameter types')
                 except (ExtractError, AttributeError, KeyError):
                     ent = None
+                if ent is None and obj is not None:
+                    # const / non-const overload pair of a member function: picked by the constness of the object expression
+                    try:
+                        ent = self.find(parent, name, nparams=nargs, const=strip_cv(node_type(tr.strip(obj))) != node_type(tr.strip(obj)).strip() and node_type(tr.strip(obj)).strip().startswith('const'))
+                        self.rule('callee defined in another translation unit: const / non-const overload picked by the constness of the object')
+                    except ExtractError:
+                        ent = None
                 # a file-local helper outside namespace romea (anonymous namespace at file scope) is not in the filtered dump: dump it by name
                 key = (tr.unit.tu, name)
                 if ent is None and not parent and name and re.match(r'^[A-Za-z_]\w*$', name) and key not in self.extra_dumps:
@@ -502,8 +509,12 @@ class Program:
                 cname = '%s_%d' % (base, k)
             self.cname_of_id[n['id']] = cname
             self.cname_of_src[skey] = cname
-            self.pending.append((cname, u, parent, n))
-            self.rule('callee extracted on demand (body verified inline, no contract)')
+            if n.get('name') in (self.options.get('opaque_calls') or ()):
+                # the spec supplies a contract for this callee (back end B: Builder.overrides): its body is not extracted here
+                self.rule('callee %s kept as a call: the spec supplies its contract' % n.get('name'))
+            else:
+                self.pending.append((cname, u, parent, n))
+                self.rule('callee extracted on demand (body verified inline, no contract)')
         cname = self.cname_of_id[n['id']]
         ret, kinds, rref, _ = fn_signature(self, n)
         return cname, ret, kinds, rref
@@ -1469,6 +1480,10 @@ class FnTranslator:
         name = d['name']
         init = self.inner(d)
         init = init[0] if init else None
+        if t[0] == 'eigdyn' and name in (self.prog.options.get('dyn_locals') or {}):
+            shp = self.prog.options['dyn_locals'][name]
+            t = ('eig', t[1], shp[0], shp[1])          # bounded stand-in: a dynamic-size local (reference) with the size the spec binds it to
+            self.rule('dynamic-size Eigen local %s declared with the size the spec binds it to (bounded stand-in)' % name)
         if t[0] == 'lockguard':
             m = self.lvalue(self.strip(self.inner(self.strip(init))[0]))
             self.rule('std::lock_guard -> ghost held flag for the rest of the scope')
@@ -1926,6 +1941,10 @@ class FnTranslator:
             if gv is not None:
                 self.rule('namespace-scope constant replaced by its initialiser value')
                 return gv
+            cn = (self.prog.options.get('const_names') or {})
+            if n['referencedDecl'].get('name') in cn:
+                self.rule('constant %s read as the value the spec states for this instantiation (stated assumption)' % n['referencedDecl'].get('name'))
+                return ('const', self.T(n) if is_scalar(self.T(n)) else ('int', 64, False), int(cn[n['referencedDecl'].get('name')]))
             self.err(n, 'reference to unknown declaration %s' % n['referencedDecl'].get('name'))
         if k == 'MemberExpr':
             base = self.inner(n)[0]
@@ -1981,6 +2000,13 @@ class FnTranslator:
                 if len(args) == 2 and self.const_int(args[1]) is None and (ev.cols == 1 or ev.rows == 1):
                     self.rule('eigen: coefficient access with a run-time index (bounds checked)')
                     return ('elemx', ev.lv, self.expr(args[1]), ev.st)
+                if len(args) == 3 and self.const_int(args[1]) is None and self.const_int(args[2]) is not None:
+                    # M(i, c) with a run-time row and a constant column of a row-major coefficient array: flat index i * cols + c
+                    u64 = ('int', 64, False)
+                    ri = self.expr(args[1])
+                    flat = ('bin', '+', ('bin', '*', ('cast', ri, self.T(args[1]), u64) if self.T(args[1]) != u64 else ri, ('const', u64, ev.cols), u64), ('const', u64, self.const_int(args[2])), u64)
+                    self.rule('eigen: coefficient access M(i, c) with a run-time row index (flat index i * cols + c)')
+                    return ('elemx', ev.lv, flat, ev.st)
                 idx = [self.const_index(a) for a in args[1:]]
                 if len(idx) == 1:
                     kk = idx[0]
@@ -2079,6 +2105,8 @@ class FnTranslator:
             return int(self.prog.options['const_members'][n['name']])
         if n['kind'] == 'DeclRefExpr' and n.get('referencedDecl', {}).get('id') in self.consts:
             return self.consts[n['referencedDecl']['id']]
+        if n['kind'] == 'DeclRefExpr' and n.get('referencedDecl', {}).get('name') in (self.prog.options.get('const_names') or {}):
+            return int(self.prog.options['const_names'][n['referencedDecl']['name']])
         if n['kind'] == 'DeclRefExpr' and n.get('referencedDecl', {}).get('kind') == 'VarDecl' and n['referencedDecl'].get('id') not in self.vars:
             v = self.unit.static_const(n['referencedDecl']['id'])
             if isinstance(v, int):
